@@ -110,6 +110,12 @@ structure St (Rq Rs σ : Type) where
 
 def upd {α : Type} (f : Nat → α) (t : Nat) (v : α) : Nat → α := fun u => if u = t then v else f u
 
+/-- Function update by an optional binding (kept first-order so that the compiled driver evaluates
+    the new value once, when the update is made). -/
+def updOpt {α : Type} (f : Nat → α) : Option (Nat × α) → Nat → α
+  | none, u => f u
+  | some (g, v), u => if u = g then v else f u
+
 def slotAt {α : Type} (l : List (Option α)) (i : Nat) : Option α := l.getD i none
 
 /-- First slot (in slot order) whose entry is selected by `f`. -/
@@ -210,6 +216,12 @@ def deliver (st : St Rq Rs σ) (u : Nat) : St Rq Rs σ :=
     | some (j', e', _) =>
       { st with slots := (st.slots.set j (some { e with stage := e'.stage })).set j' (some { e' with stage := .done rs }) }
 
+/-- `tx_rx` after the await: if the request was a cycle of group `g`, the new image of `g`. -/
+def imgWrite (S : Sys Rq Rs σ) (img : Nat → List Nat) (rq : Rq) (rs : Rs) : Option (Nat × List Nat) :=
+  match S.grp rq with
+  | some g => some (g, S.inputs rq rs (img g))
+  | none => none
+
 /-- Task `t` picks up its response (future `Ready`), uses it, drops the `ReceivedFrame`. -/
 def consume (S : Sys Rq Rs σ) (st : St Rq Rs σ) (t : Nat) : St Rq Rs σ :=
   match findSlot (selDone t) st.slots with
@@ -217,9 +229,7 @@ def consume (S : Sys Rq Rs σ) (st : St Rq Rs σ) (t : Nat) : St Rq Rs σ :=
   | some (j, e, rs) =>
     { st with slots := st.slots.set j none,
               got := upd st.got t (st.got t ++ [rs]),
-              img := match S.grp e.req with
-                     | some g => upd st.img g (S.inputs e.req rs (st.img g))
-                     | none => st.img }
+              img := updOpt st.img (imgWrite S st.img e.req rs) }
 
 def step (S : Sys Rq Rs σ) (st : St Rq Rs σ) : Act → St Rq Rs σ
   | .issue t => issue S st t
